@@ -39,9 +39,38 @@ def run_one(engine, batch_seed, k, tier, keep_trace=False):
     return scn, res
 
 
+class RunTimeout(BaseException):
+    pass
+
+
+def _on_alarm(signum, frame):
+    raise RunTimeout()
+
+
 def execute_scenario(engine, scn, keep_trace=False):
+    """Execute one scenario under a wall-clock watchdog. A run that exceeds it is reported as a
+    violation of class HANG (the code under test has no business looping for a minute on inputs that
+    normally take milliseconds); the limit is generous so that load cannot trigger it."""
+    import signal
+
+    from .trace import Result
+
     env.pin_runtime()
-    return engine.execute(scn, keep_trace=keep_trace)
+    limit = int(os.environ.get("VERIF_RUN_TIMEOUT", getattr(engine, "RUN_TIMEOUT_S", 120)))
+    old = signal.signal(signal.SIGALRM, _on_alarm)
+    signal.alarm(limit)
+    try:
+        return engine.execute(scn, keep_trace=keep_trace)
+    except RunTimeout:
+        res = Result()
+        res.violate("HANG", "run did not finish within %d s of wall time" % limit)
+        res.digest = "hang"
+        res.signature = "hang"
+        res.nontrivial = True
+        return res
+    finally:
+        signal.alarm(0)
+        signal.signal(signal.SIGALRM, old)
 
 
 def _sig_hash(s):
